@@ -205,6 +205,7 @@ func oracle(c *hx.NegCase, o *hx.Observed) [][2]string {
 	atHeader := true           // receiver: the next item is read as a stream header
 	var expectNeg *hx.FeatSpec // receiver: a legitimate selection was read, its feature must run next
 	refused := false
+	negFailed := false // some Negotiate call returned an error
 	pendingRequired := func() bool {
 		for _, e := range cache {
 			if e.req && e.f.Neg && !negd[e.f.Space] && eligible(e.f, cur) {
@@ -330,6 +331,9 @@ func oracle(c *hx.NegCase, o *hx.Observed) [][2]string {
 			}
 			negd[f.Space] = true
 			cur = st
+			if e.O.Err {
+				negFailed = true
+			}
 			if !e.O.Err {
 				cur |= e.O.Mask
 				selfReady = selfReady || e.O.Mask&hx.NegReady != 0
@@ -357,6 +361,9 @@ func oracle(c *hx.NegCase, o *hx.Observed) [][2]string {
 		} else if pendingRequired() {
 			fail("established/required-pending", "session established while an eligible required feature of the last advertisement was not negotiated")
 		}
+	}
+	if o.Class == "ok" && negFailed {
+		fail("feature-error", "a feature's Negotiate returned an error and the session was reported established all the same")
 	}
 	if o.Class == "panic" || o.Class == "timeout" {
 		fail(o.Class, "negotiation "+o.Class+": "+o.ErrText)
@@ -679,12 +686,12 @@ func main() {
 		for _, cc := range corpus() {
 			x.runFixed(cc.NegCase, cc.Note, 6)
 		}
-		n, sys := 1500, 250
+		n, sys := 5000, 700
 		if o.Thorough() {
-			n, sys = 12000, 4096
+			n, sys = 40000, 4096
 		}
 		if o.Search {
-			n, sys = 30000, 4096
+			n, sys = 60000, 4096
 		}
 		systematic(x, r, sys)
 		for i := 0; i < n; i++ {
@@ -804,6 +811,24 @@ func corpus() []recCase {
 	out = append(out, recCase{Note: "unsent selection", NegCase: hx.NegCase{
 		Bits: hx.NegReceived | S, Feats: []hx.FeatSpec{al, tls},
 		In: []hx.Item{hdr, {Kind: "elem", Space: tls.Space, Local: tls.Local}}}})
+	// an informational feature in the STARTTLS name space that the first list does not advertise
+	tlsInfo := tls
+	tlsInfo.Neg = false
+	out = append(out, recCase{Note: "informational STARTTLS-namespace feature, not advertised on the first list (nil Negotiate)", NegCase: hx.NegCase{
+		Feats: []hx.FeatSpec{tlsInfo, a}, In: []hx.Item{hdr, fl(ch(a, true)), fl()},
+		Outs: []hx.Outcome{{Mask: 0}}}})
+	// a voluntary feature that restarts the stream, no required feature in the list
+	out = append(out, recCase{Note: "voluntary restarting feature, nothing required (initiator)", NegCase: hx.NegCase{
+		Feats: []hx.FeatSpec{a, b}, In: []hx.Item{hdr, fl(ch(a, false)), hdr, fl()},
+		Outs: []hx.Outcome{{Mask: S, Restart: true}}}})
+	out = append(out, recCase{Note: "voluntary restarting feature, nothing required (receiver)", NegCase: hx.NegCase{
+		Bits: hx.NegReceived, Feats: []hx.FeatSpec{al, b},
+		In:   []hx.Item{hdr, {Kind: "elem", Space: a.Space, Local: a.Local}, hdr, {Kind: "elem", Space: b.Space, Local: b.Local}},
+		Outs: []hx.Outcome{{Mask: S, Restart: true}, {Mask: R}}}})
+	// Ready together with a restart (known finding)
+	out = append(out, recCase{Note: "Ready in the mask of a restarting feature", NegCase: hx.NegCase{
+		Feats: []hx.FeatSpec{a}, In: []hx.Item{hdr, fl(ch(a, false))},
+		Outs: []hx.Outcome{{Mask: R, Restart: true}}}})
 	for i := range out {
 		out[i].Domain = "example.net"
 	}
